@@ -74,6 +74,15 @@ FloatStr(nu, de) ==
   IN (IF nu < 0 THEN "-" ELSE "") \o ToString(whole) \o
      (IF r = 0 THEN "" ELSE "." \o FracDigits(r, de))
 
+\* keys of an object in byte order (objects are functions here; the code
+\* iterates a HashMap, so anything that depends on the order of a multi-key
+\* object is unspecified and the generators avoid it)
+RECURSIVE SortedKeys(_)
+SortedKeys(S) ==
+  IF S = {} THEN <<>>
+  ELSE LET m == CHOOSE x \in S : \A y \in S : StrCmp(x, y) \in {"lt", "eq"} IN
+       <<m>> \o SortedKeys(S \ {m})
+
 (* ----------------------- rendering / to_kstr -------------------------- *)
 RECURSIVE ToStr(_)
 ToStr(v) ==
@@ -84,7 +93,11 @@ ToStr(v) ==
     [] v.k = "arr"   -> LET RECURSIVE Cat(_)
                             Cat(i) == IF i > Len(v.a) THEN "" ELSE ToStr(v.a[i]) \o Cat(i + 1)
                         IN Cat(1)
-    [] OTHER         -> ""           \* nil, state; objects are never printed by the generators
+    [] v.k = "obj"   -> LET ks == SortedKeys(DOMAIN v.o)
+                            RECURSIVE CatO(_)
+                            CatO(i) == IF i > Len(ks) THEN "" ELSE ks[i] \o ToStr(v.o[ks[i]]) \o CatO(i + 1)
+                        IN CatO(1)
+    [] OTHER         -> ""           \* nil, state
 
 (* ----------------------------- states --------------------------------- *)
 Truthy(v) ==
@@ -165,7 +178,19 @@ ValueCmp(x, y) ==
                   ELSE LET c == ValueCmp(x.a[i], y.a[i]) IN
                        IF c = "eq" THEN Lex(i + 1) ELSE c
     IN Lex(1)
-  ELSE "none"      \* objects: iteration-order dependent in the code; never generated for ordering
+  ELSE IF x.k = "obj" /\ y.k = "obj" THEN
+    \* lexicographic over (key, value) pairs; key order (see SortedKeys)
+    LET kx == SortedKeys(DOMAIN x.o)  ky == SortedKeys(DOMAIN y.o)
+        RECURSIVE LexO(_)
+        LexO(i) == IF i > Len(kx) /\ i > Len(ky) THEN "eq"
+                   ELSE IF i > Len(kx) THEN "lt"
+                   ELSE IF i > Len(ky) THEN "gt"
+                   ELSE LET kc == StrCmp(kx[i], ky[i]) IN
+                        IF kc # "eq" THEN kc
+                        ELSE LET c == ValueCmp(x.o[kx[i]], y.o[ky[i]]) IN
+                             IF c = "eq" THEN LexO(i + 1) ELSE c
+    IN LexO(1)
+  ELSE "none"
 
 \* the six comparison operators of `if`, via PartialOrd defaults
 CmpOp(op, x, y) ==
